@@ -115,6 +115,18 @@ fn dom_bounded(t: &T, b: f64) -> Result<(), RErr> {
 
 /// Apply the operation in the reference model.
 pub fn apply_ref(op: &OpK, a: &[&T]) -> Result<T, RErr> {
+    let r = apply_ref_raw(op, a)?;
+    for d in &r.x {
+        if !d.v.is_finite() || !d.d.is_finite() || !d.m.is_finite() || !d.md.is_finite() {
+            return Err(RErr::Domain);
+        }
+    }
+    Ok(r)
+}
+
+/// As `apply_ref`, without the final guard that keeps results finite: used by the spaces whose
+/// valuations overflow on purpose (compared with `cmp_slice_inf`).
+pub fn apply_ref_raw(op: &OpK, a: &[&T]) -> Result<T, RErr> {
     if matches!(op, OpK::UMul | OpK::UAdd | OpK::UMulN) && a[0].dims != a[1].dims {
         // the harness's user operations are defined for equal shapes only
         return Err(RErr::Refuse);
@@ -180,11 +192,6 @@ pub fn apply_ref(op: &OpK, a: &[&T]) -> Result<T, RErr> {
         }
         OpK::Conv { sr, sc } => conv(a[0], a[1], *sr, *sc)?,
     };
-    for d in &r.x {
-        if !d.v.is_finite() || !d.d.is_finite() || !d.m.is_finite() || !d.md.is_finite() {
-            return Err(RErr::Domain);
-        }
-    }
     Ok(r)
 }
 
